@@ -339,6 +339,10 @@ func setMaxStack() {}
 func genCall(w *bufio.Writer, r *rng, id int, c genCfg, reps int, kind string) {
 	sc := genScenario(r, c)
 	sc.multiConv(r)
+	if r.chance(1, 8) {
+		// the target itself among the converters (a list of all known functions handed to every call)
+		sc.Opts = append(sc.Opts, optSpecC{Kind: "convfunc", Fids: []int{0}})
+	}
 	emitCall(w, sc, id, reps, kind, "")
 }
 
@@ -378,7 +382,7 @@ func emitCall(w *bufio.Writer, sc *scenario, id, reps int, kind, extra string) {
 	fmt.Fprintf(w, "end\n")
 	// every third scenario: probes that involve a second function object or option-less calls
 	if id%3 == 0 && kind == "call" {
-		fmt.Fprintf(w, "scn probe %d\nsibling %s\nbare %s\npassthru %s\ntwinsets %s\nend\n", id, siblingProbe(sc, sc.callArgs(false)), bareProbe(sc), passthruProbe(), twinSetsProbe())
+		fmt.Fprintf(w, "scn probe %d\nsibling %s\nbare %s\npassthru %s\ntwinsets %s\nreuse %s\nend\n", id, siblingProbe(sc, sc.callArgs(false)), bareProbe(sc), passthruProbe(), twinSetsProbe(), reuseProbe())
 	}
 	w.Flush()
 }
